@@ -28,6 +28,8 @@ func checkC11(c *Check, a *Anchors) {
 	compiledFromDefinition(c, a, "compiled-from-definition")
 	c18FieldsClassified(c, a) // a new field of Executor / Compiler is state shared by every call: it must be reviewed (memo tables make a task depend on history)
 	noInPlaceMutationOfShared(c, a, "no-in-place-mutation")
+	copyReturnsFresh(c, a, "copy-returns-fresh")
+	c08CopyExhaustive(c, a) // the per-call copy of a task must not share mutable elements (matrix rows, globs ...) with the definition: one call's resolved values would reach the next
 }
 
 // runPhaseRoots: functions whose reachable code runs concurrently / per call.
